@@ -67,6 +67,15 @@ def wCfgDiamond : Cfg :=
               { name := "fc", procs := [⟨"C", "PA", []⟩], req := [⟨wS, wE⟩]
                 res := [⟨wS, .proc "C" ""⟩, ⟨.proc "C" "a", wE⟩] }] }
 
+def wRef (name key tgt : String) : XFlow :=
+  { name := name, procs := [⟨key, "PA", []⟩], req := [⟨wS, wE⟩]
+    res := [⟨wS, .proc key ""⟩, ⟨.proc key "a", .flow tgt "start"⟩] }
+
+def wRhoEntry : XFlow := wRef "Entry" "E" "LoopA"
+
+/-- `corpus/C05/regress-refcycle-rho.ops`: `Entry → LoopA → LoopB → LoopA` -/
+def wCfgRho : Cfg := { pdefs := [wPA], flows := [wRhoEntry, wRef "LoopA" "A" "LoopB", wRef "LoopB" "B" "LoopA"] }
+
 /-- `corpus/C05/regress-F05c.ops`: a null entry among the internal limits -/
 def wCfgC : Cfg :=
   { qfiles := [{ quotas := [{ id := "q1", url := some "verif.test/*", strat := { kind := "conc", maxreq := some 5 } }],
